@@ -94,6 +94,10 @@ fn base_cfg(r: &mut SimRng, prop: &str, max_steps: u64) -> W4Cfg {
         path: vec![],
         centre: r.range(200, 100_000) as u32,
         quote_by_modify: false,
+        halts: vec![],
+        warmup: 1,
+        extra_step_every: 0,
+        abandoned_first: false,
     }
 }
 
@@ -149,7 +153,10 @@ pub fn generate_c09(seed: u64) -> W4Scn {
     if r.chance(0.04) {
         cfg.n_steps = 0; // the runners must do nothing at all
     }
-    let agents = gen_groups(&mut r, &cfg, false, false);
+    // (a third of the runs with the heavy-tailed distance distribution: quotes clamped at the ends of the price range)
+    let heavy = r.chance(0.33);
+    let agents = gen_groups(&mut r, &cfg, false, heavy);
+    cfg.abandoned_first = r.chance(0.3);
     let kind = *r.pick(&[0u64, 3, 3, 3, 1, 2]);
     let initial = gen_initial(&mut r, &cfg, kind);
     // a separate OS process for half of the runs, each with its own perturbation set
@@ -203,7 +210,22 @@ pub fn generate_c16(seed: u64) -> W4Scn {
         }
     }
     let kind = if r.chance(0.12) { 4 + r.below(2) } else { r.below(4) };
-    let initial = gen_initial(&mut r, &cfg, kind);
+    let mut initial = gen_initial(&mut r, &cfg, kind);
+    if kind < 4 && r.chance(0.06) {
+        // whale resting orders far from the touch: each side stays below 2^32, the two sides together reach or pass it
+        for a in 0..cfg.assets {
+            let tick = cfg.ticks[a];
+            let (vb, va) = *r.pick(&[(1u32 << 31, 1u32 << 31), (3_000_000_000, 2_000_000_000), (1 << 31, (1 << 31) + 5)]);
+            initial.push((a, true, (cfg.centre - 150) * tick, vb));
+            initial.push((a, false, (cfg.centre + 150) * tick, va));
+        }
+    }
+    if r.chance(0.12) && cfg.n_steps >= 3 {
+        // a trading halt in the middle of the run: the agents keep quoting, the book may cross
+        let from = r.below(cfg.n_steps - 1);
+        let to = from + 1 + r.below(10);
+        cfg.halts.push((from, to));
+    }
     let mut inject = vec![];
     if r.chance(0.5) {
         // sparse, never adjacent: rejection samplers always terminate
@@ -236,6 +258,13 @@ pub fn generate_c17(seed: u64) -> W4Scn {
         ((n as f64) * *r.pick(&[1.05f64, 1.1, 1.3]), 2.0 / tick_a)
     } else {
         ((n as f64) * *r.pick(&[0.5f64, 1.0, 3.0, 20.0]), *r.pick(&[0.01f64, 0.1, 1.0]))
+    };
+    // (the documented probability is the absolute value |demand * tanh(scale * M)| / n: the sign of either setting must not matter)
+    let (demand, scale) = match r.below(16) {
+        0 => (-demand, scale),
+        1 => (demand, -scale),
+        2 => (-demand, -scale),
+        _ => (demand, scale),
     };
     let order_ratio = *r.pick(&[0.0f64, 0.0, 1.0, 2.0, 0.5]);
     // heavy-tailed limit-price distances (the documentation's sigma = 10) at a low price level: distances beyond the
@@ -287,6 +316,8 @@ pub fn generate_c17(seed: u64) -> W4Scn {
     }
     cfg.path = path;
     cfg.quote_by_modify = r.chance(0.35);
+    cfg.warmup = *r.pick(&[1u8, 1, 1, 2, 3]);
+    cfg.extra_step_every = *r.pick(&[0u8, 0, 0, 0, 2, 3, 5]);
     cfg.n_steps = len as u64;
     W4Scn { cfg, agents: vec![spec], initial: vec![], inject: vec![] }
 }
